@@ -55,6 +55,89 @@ def codecLine (line : String) : String :=
   | [""] => ""
   | _ => "bad-line"
 
+/-! ### trace mode: replay the implementation's choices on the model and print the model's log -/
+
+structure Script where
+  choices : List (Option Nat)
+  draws : List Nat
+
+def scripted : Scheduler Script where
+  nextTask s _ _ _ := match s.choices with
+    | [] => (.panic "script exhausted (the implementation made fewer decisions)", s)
+    | c :: cs => (.choose c, { s with choices := cs })
+  nextU64 s := match s.draws with
+    | [] => (.error "script exhausted (the implementation made fewer draws)", s)
+    | d :: ds => (.ok d, { s with draws := ds })
+
+def idsStr (l : List Nat) : String := ",".intercalate (l.map toString)
+def optStr : Option Nat → String
+  | some n => toString n
+  | none => "-"
+
+def evLine : Ev → String
+  | .dec off cur y ch => s!"D {idsStr off} {optStr cur} {if y then "y" else "n"} > {optStr ch}"
+  | .draw v => s!"R {v}"
+  | .obs s => s
+
+def outcomeLine : Outcome → String
+  | .ok | .stopped | .abandoned => "E end"
+  | .deadlock l => "E deadlock " ++ ",".intercalate (l.map fun (t, d, p) =>
+      toString t ++ (if d then ":d" else "") ++ (if p then ":p" else ""))
+  | .panic _ msg => s!"E panic {msg}"
+  | .stepBoundFail n => s!"E stepbound {n}"
+  | .abort msg => s!"E abort {msg}"
+  | .schedulingError => "E schedulingerror"
+  | .schedPanic msg => s!"E schedpanic {msg}"
+  | .outOfFuel => "E model-out-of-fuel"
+
+def toSched (seed : Nat) (steps : List SStep) : Schedule :=
+  { seed := seed, steps := steps.map fun s => match s with | .task t => ScheduleStep.task t | .random => .random }
+
+def schedHex (seed : Nat) (steps : List SStep) : String :=
+  (serializeSchedule (toSched seed steps)).replace "\n" ""
+
+/-- split the implementation's log of one program into executions: (index, seed, choices, draws) -/
+def parseExecs (lines : List String) : List (Nat × Nat × Script) :=
+  let flush (cur : Option (Nat × Nat × List (Option Nat) × List Nat)) (acc : List (Nat × Nat × Script)) :=
+    match cur with
+    | some (i, sd, cs, ds) => (i, sd, { choices := cs.reverse, draws := ds.reverse : Script }) :: acc
+    | none => acc
+  let (cur, acc) := lines.foldl (fun (st : Option (Nat × Nat × List (Option Nat) × List Nat) × List (Nat × Nat × Script)) l =>
+    let (cur, acc) := st
+    match l.splitOn " " with
+    | ["X", "end"] => (none, flush cur acc)
+    | ["X", i, sd] => (some ((i.toNat?).getD 0, (sd.toNat?).getD 0, [], []), flush cur acc)
+    | "D" :: rest =>
+      match cur with
+      | some (i, sd, cs, ds) => (some (i, sd, (rest.getLast?.bind String.toNat?) :: cs, ds), acc)
+      | none => st
+    | ["R", v] =>
+      match cur with
+      | some (i, sd, cs, ds) => (some (i, sd, cs, ((v.toNat?).getD 0) :: ds), acc)
+      | none => st
+    | _ => st) (none, [])
+  (flush cur acc).reverse
+
+def traceProgram (ir : IR) (implLines : List String) : List String :=
+  let execs := parseExecs implLines
+  execs.flatMap fun (i, seed, script) =>
+    let r := execute ir.program scripted ir.steps seed script 400000 200000
+    let evs := r.st.log.toList.map evLine
+    [s!"X {i} {seed}"] ++ evs ++ [outcomeLine r.outcome, s!"S {schedHex seed r.st.k.schedule_}"]
+
+/-- split a log file into (name, lines) sections -/
+def sections (text : String) : List (String × List String) :=
+  let (cur, acc) := (text.splitOn "\n").foldl (fun (st : Option (String × List String) × List (String × List String)) l =>
+    let (cur, acc) := st
+    if l.startsWith "=== " then
+      let acc := match cur with | some (n, ls) => (n, ls.reverse) :: acc | none => acc
+      (some ((l.drop 4).trimAscii.toString, []), acc)
+    else match cur with
+      | some (n, ls) => (some (n, l :: ls), acc)
+      | none => st) (none, [])
+  let acc := match cur with | some (n, ls) => (n, ls.reverse) :: acc | none => acc
+  acc.reverse
+
 def main (args : List String) : IO UInt32 := do
   match args with
   | ["codec", file] =>
@@ -65,6 +148,16 @@ def main (args : List String) : IO UInt32 := do
     let lines := if lines.getLast? == some "" then lines.dropLast else lines
     for l in lines do
       out.putStrLn (codecLine l)
+    return 0
+  | ["trace", progFile, logFile] =>
+    let irs := parseBatch (← IO.FS.readFile progFile)
+    let secs := sections (← IO.FS.readFile logFile)
+    let out ← IO.getStdout
+    for ir in irs do
+      out.putStrLn s!"=== {ir.name}"
+      let impl := match secs.find? (·.1 == ir.name) with | some (_, ls) => ls | none => []
+      for l in traceProgram ir impl do
+        out.putStrLn l
     return 0
   | ["selftest"] =>
     let ok := Rng.Vectors.rngSelfTest
